@@ -19,13 +19,14 @@ from .c12 import _valid_date, _g
 PROPERTY = 'C08'
 LEVEL = 'model_checking'
 ASSUMPTIONS = [
-    'only the gridded average/emissions (uamiv) writer/reader pair is '
-    'encoded, and of it the time-flag path (TFLAG/ETFLAG -> header -> '
-    'TFLAG/ETFLAG) and the record-size expressions; payload floats are bit '
-    'copies (astype(">f") of float32 data) and are not modelled; lateral '
-    'boundary, land-use and the meteorological writers are NOT covered '
-    '(the met writers call ndarray.tostring, removed from numpy 2.5, and '
-    'fail in this environment before writing anything)',
+    'uamiv (gridded average/emissions): the time-flag path (TFLAG/ETFLAG -> '
+    'header -> TFLAG/ETFLAG); payload floats are bit copies and are not '
+    'modelled symbolically (compared in replay)',
+    'one3d (= humidity, vertical_diffusivity), temperature, height_pressure: '
+    'the whole writer function on a byte sink (checks/metwrite.py) composed '
+    'with the readers\' ConvertCAMxTime; payload concrete incl. -0.0 and a '
+    'denormal; lateral boundary, land-use, wind and cloud/rain are NOT '
+    'covered; the idempotent-rewrite clause is not claimed',
     'whole-hour steps; float32 header times are exact for whole hours '
     '(|HHMMSS| < 2**24) so they are modelled as reals',
     'start year enumerated (1970, 1999, 2000, 2003, 2004, 2069), day of '
@@ -43,10 +44,14 @@ MANIFEST = {
             'the enumerated years and T<=3 hourly steps (with and without an '
             'ETFLAG variable), the begin flags read back equal the flags '
             'written and the end flags equal begin + 1 h, including day, '
-            'leap-day, year and century roll-overs.',
+            'leap-day, year and century roll-overs. For the one3d, '
+            'temperature and height_pressure writers: every record written '
+            'equals the reference layout (markers, HHMM time, YYJJJ date, '
+            'payload bytes) and the readers\' time reconstruction returns the '
+            'flags, for every start day/hour of the enumerated years.',
     'note': 'Trusted: z3, symdatetime reference arithmetic. Partial claim: '
-            'only uamiv, only time flags and record sizes; data payload, '
-            'grid header mapping and the other CAMx formats are outside.',
+            'uamiv time flags and 3 met writers; grid header mapping, '
+            'rewrite idempotence and the other CAMx formats are outside.',
 }
 
 W_NAMES = ['date_s', 'time_s', 'date_e', 'time_e', 'tincr']
@@ -238,4 +243,6 @@ def obligations(tier):
         for T in ((1, 2) if tier == 'quick' else (1, 2, 3)):
             for et in (True, False):
                 obs.append(TimeRoundTrip(y, T, et))
+    from . import metwrite
+    obs += metwrite.obligations(tier)
     return obs
